@@ -166,7 +166,7 @@ let parse_rops (ops : string) : rop list =
   List.concat_map (fun op ->
     if op = "" then [] else
     if op = "R" then [OReader] else if op = "A" then [OReadAll]
-    else if op.[0] = 'a' then [OReadAllN (nat_of_int (int_of_string (String.sub op 1 (String.length op - 1))))]
+    else if op.[0] = 'a' || op.[0] = 'z' (* z<n>: as a<n>, with a zero-length Read before every Read: same observations *) then [OReadAllN (nat_of_int (int_of_string (String.sub op 1 (String.length op - 1))))]
     else if op.[0] = 'r' then [ORead (nat_of_int (int_of_string (String.sub op 1 (String.length op - 1))))]
     else if op.[0] = 'L' then [OSetLimit (z_of_int (int_of_string (String.sub op 1 (String.length op - 1))))]
     else failwith ("bad read op " ^ op)) (String.split_on_char ',' ops)
@@ -177,10 +177,15 @@ let run_wirein kvs _ =
   let ops = match get_or kvs "limit" "default" with "default" -> ops | l -> OSetLimit (z_of_int (int_of_string l)) :: ops in
   let e = match get_or kvs "end" "eof" with "fail" -> EFail | "open" -> EOpen | _ -> EEof in
   let inq = bytes_of_string (payload (get kvs "stream")) in
-  let (obs, st) = run cfg inflate_oracle c_initialLimitStored inq e ops in
+  (* whether the inflater reported corrupt data during this case: the model pulls a compressed message eagerly, so what it
+     did with the frames AFTER the corrupt point (answering a Ping, rejecting a bad header with a Close frame) is read-ahead
+     the library, which stops at the corrupt data, never performs *)
+  let zcorrupt = ref false in
+  let infl d i = let (o, st) = inflate_oracle d i in (match st with ICorrupt -> zcorrupt := true | _ -> ()); (o, st) in
+  let (obs, st) = run cfg infl c_initialLimitStored inq e ops in
   let reps = List.map reply_str st.r_replies in
   let faildata = List.fold_left (fun acc o -> match o with ObMsg (d, Some _) -> hexb d | _ -> acc) "?" obs in
-  Printf.sprintf "obs=%s replies=%s faildata=%s" (String.concat "," (List.map obs_str obs)) (if reps = [] then "-" else String.concat "," reps) faildata
+  Printf.sprintf "obs=%s replies=%s faildata=%s zcorrupt=%d" (String.concat "," (List.map obs_str obs)) (if reps = [] then "-" else String.concat "," reps) faildata (if !zcorrupt then 1 else 0)
 
 (* ---- suite close ---- *)
 let run_close kvs _ =
@@ -524,6 +529,39 @@ let run_sched kvs ikvs =
   let gor = if tlexits = 1 && crstarts = crexits then "ok" else Printf.sprintf "leak:timeoutLoop-exits=%d:closeRead=%d/%d" tlexits crexits crstarts in
   Printf.sprintf "judge=%s replay=%s modelprops=%s frames=%d goroutines=%s moved=%d" verdict (if !err = "" then "ok" else !err) props niframes gor moved
 
+(* ---- suite ping (C15, matching) ---- *)
+let run_ping kvs ikvs =
+  let script = String.split_on_char '/' (get kvs "script") in
+  let conc = get kvs "mode" = "conc" in
+  let pings = match get_or ikvs "pings" "-" with "-" -> [] | s -> List.map unhex (String.split_on_char ',' s) in
+  let np = List.length pings in
+  let distinct = List.length (List.sort_uniq compare pings) = np in
+  let pong_payload letter p =
+    let n = String.length p in
+    match letter with
+    | 'e' | 'd' -> p | 'u' -> "zz" | 'z' -> "0" ^ p | 'p' -> "+" ^ p | 's' -> p ^ " " | 'l' -> " " ^ p | 't' -> p ^ "0" | 'm' -> ""
+    | 'x' -> "x" ^ p | 'c' -> if n = 0 then p else String.sub p 0 (n - 1) ^ String.make 1 (Char.chr (Char.code p.[n - 1] lxor 0x40))
+    | 'h' -> String.sub p 0 (n / 2) | _ -> p in
+  let pongs_of reaction p =
+    List.concat (List.init (String.length reaction) (fun i ->
+      let q = PgPong (bytes_of_string (pong_payload reaction.[i] p)) in if reaction.[i] = 'd' then [q; q] else [q])) in
+  let calls = List.mapi (fun i r -> (i, r, (if i < np then Some (List.nth pings i) else None))) script in
+  let evs =
+    if not conc then
+      List.concat_map (fun (i, r, p) -> match p with
+        | None -> []
+        | Some p -> [PgReg (nat_of_int i, bytes_of_string p)] @ pongs_of r p @ [PgEnd (nat_of_int i)]) calls
+    else
+      List.filter_map (fun (i, _, p) -> match p with Some p -> Some (PgReg (nat_of_int i, bytes_of_string p)) | None -> None) calls
+      @ List.concat_map (fun (_, r, p) -> match p with Some p -> pongs_of r p | None -> []) (List.rev calls)
+      @ List.map (fun (i, _, _) -> PgEnd (nat_of_int i)) calls in
+  let st = pg_run evs in
+  let ok i = List.exists (fun (j, r) -> int_of_nat j = i && r = PgOk) st.pg_done in
+  let res =
+    if not conc then String.concat "," (List.mapi (fun i _ -> if ok i then "1" else "0") script)
+    else Printf.sprintf "ok%d" (List.length (List.filter (fun (i, _, _) -> ok i) calls)) in
+  Printf.sprintf "res=%s distinct=%b npings=%d later=1" res distinct np
+
 (* ---- suites netconn / wsjson ---- *)
 let nres_str = function NData d -> Printf.sprintf "%d:nil" (List.length d) | NEOF -> "eof" | NErrClose c -> Printf.sprintf "close:%d" (int_of_z c)
   | NErrType -> "wrongtype" | NErr -> "err" | NBlock -> "block"
@@ -561,6 +599,11 @@ let run_netconn kvs _ =
     let s0 = { dl_expired = false; dl_busy = false; dl_cancelled = false } in
     let out o = match o with DOk -> "nil" | DDeadlineErr -> "deadline" | DNone -> "-" in
     (match get kvs "when" with
+     | "active-setpast" | "active-setfuture" ->
+       let (s1, _) = dl_step s0 DCallStart in
+       let (s2, _) = dl_step s1 DSet in
+       let (s3, _) = dl_step s2 DFire in
+       Printf.sprintf "call=%b connclosed=%b" s3.dl_cancelled s3.dl_cancelled
      | "active" ->
        let (s1, _) = dl_step s0 DCallStart in
        let (s2, _) = dl_step s1 DFire in
@@ -699,6 +742,7 @@ let run_pools kvs ikvs =
 let suites : (string * ((string * string) list -> (string * string) list -> string)) list = [
   "pools", run_pools;
   "life", run_life;
+  "ping", run_ping;
   "netconn", run_netconn;
   "wsjson", run_wsjson;
   "sched", run_sched;
